@@ -31,3 +31,10 @@ package fallback
 //@   ensures [C10.listener+C16.fallback.executed] failed && !c1 && !c2 ==> (e.onFallbackExecuted != nil ==> ncalls(e.onFallbackExecuted) == 1) 
 //@   havoc
 //@   modifies calls(innerFn), calls(e.fn), calls(e.onFallbackExecuted), calls(exec.IsCanceledWithResult), calls(exec.CopyWithResult), calls(e.onFailure), calls(e.onSuccess)
+
+//@ func (*config).Build
+//@   builder
+//@   requires c != nil
+//@   let tc := asref(result, *fallback).config
+//@   ensures [C10.build.own_config+C16.fallback.build_own_listener] result != nil && typeis(result, *fallback) && tc != nil && tc != c && fresh(tc) && tc.fn == c.fn && tc.onFallbackExecuted == c.onFallbackExecuted && tc.BaseFailurePolicy == c.BaseFailurePolicy
+//@   modifies nothing
